@@ -11,7 +11,7 @@ git diff --quiet && { echo "worktree has no change"; exit 2; }
 git diff -- src > /dev/shm/seed-$id.diff
 cp $O/demo_test.go $W/$pkg/zz_seed_demo_test.go
 # SEED_TEST_FLAGS (e.g. -race) are added to the demo runs; SEED_UNSHARE=1 runs every go test in a private network namespace (gnet binds fixed ports)
-gt() { if [ -n "$SEED_UNSHARE" ]; then unshare -n sh -c "ip link set lo up && go test $*"; else go test "$@"; fi; }
+gt() { if [ -n "$SEED_UNSHARE" ]; then unshare -n sh -c "ip link set lo up && go test $*"; else sh -c "go test $*"; fi; }
 with=$(gt $SEED_TEST_FLAGS -vet=off -count=1 -run "$rx" ./$pkg/ 2>&1 | tail -1)
 git apply -R /dev/shm/seed-$id.diff
 without=$(gt $SEED_TEST_FLAGS -vet=off -count=1 -run "$rx" ./$pkg/ 2>&1 | tail -1)
